@@ -354,11 +354,11 @@ impl Deserializable for Instruction {
             OpCode::Trace => Ok(Instruction::Trace(source.read_u32()?)),
 
             // ----- control flow -----------------------------------------------------------------
-            // control flow instructions should be parsed as a part of Node::read_from() and we
-            // should never get here
-            OpCode::IfElse => unreachable!(),
-            OpCode::Repeat => unreachable!(),
-            OpCode::While => unreachable!(),
+            // control flow instructions are parsed as a part of Node::read_from(); a control flow
+            // opcode at this point means the bytes do not encode an instruction
+            OpCode::IfElse | OpCode::Repeat | OpCode::While => Err(DeserializationError::InvalidValue(
+                "control flow opcode where an instruction was expected".to_string(),
+            )),
         }
     }
 }
